@@ -308,6 +308,44 @@ Definition mux_clear_all (s : state2) (u : handle) : state2 * result :=
            <| xgids ::= <[u := ∅]> |> <| xfixed ::= <[u := ∅]> |>)
   end.
 
+(* ---- Clone of an enum value / of an enum -------------------------------------------------------------- *)
+(* SignalEnumValue.Clone: a new value with the same name and index and no parent *)
+Definition eval_clone (s : state2) (v : handle) : state2 * result :=
+  match evals (base (l3 s)) !! v with
+  | None => bad2 s
+  | Some V => lift3 s (L1 (NewEnumValue (v_name V) (v_index V)))
+  end.
+
+Definition idx_le (a b : Z * handle) : Prop := (a.1 ≤ b.1)%Z.
+Global Instance idx_le_dec a b : Decision (idx_le a b) := Z_le_dec _ _.
+
+(* the values of an enum by ascending index (SignalEnum.Values) *)
+Definition values_by_index (s : state) (E : enum_rec) : list (Z * handle) :=
+  merge_sort idx_le (omap (λ v, (λ V, (v_index V, v)) <$> evals s !! v) (elements (e_values E))).
+
+(* one value of the clone: the constructor, then AddValue on the clone (which has no references, so
+   the geometric oracle bit of AddValue is irrelevant: true) *)
+Definition clone_value (e' : handle) (s0 : state) (acc : state2) (iv : Z * handle) : state2 :=
+  match evals s0 !! iv.2 with
+  | Some V =>
+    let v' := next2 acc in
+    let acc1 := (lift3 acc (L1 (NewEnumValue (v_name V) (v_index V)))).1 in
+    (lift3 acc1 (L1 (EnumAddValue e' (Some v') true))).1
+  | None => acc
+  end.
+
+(* SignalEnum.Clone: a new enum, and per value of the original (ascending index) a clone of the value
+   added to it; the handles are those the harness assigns: enum first, then the values in the order
+   of Values() *)
+Definition enum_clone (s : state2) (e : handle) : state2 * result :=
+  match enums (base (l3 s)) !! e with
+  | None => bad2 s
+  | Some E =>
+    let s0 := base (l3 s) in
+    let e' := next2 s in
+    ok2 (fold_left (clone_value e' s0) (values_by_index s0 E) (lift3 s (L1 NewEnum)).1)
+  end.
+
 (* ---- the operations ------------------------------------------------------------------------------------ *)
 Inductive op2 :=
   | L3 (o : op3)                                   (* every operation of layers 1 and 3 except the signal constructors *)
@@ -321,7 +359,9 @@ Inductive op2 :=
   | MuxInsert (u : handle) (os : option handle) (fits : bool) (ids : list Z)
   | MuxRemove (u key : handle)
   | MuxClearGroup (u : handle) (g : Z)
-  | MuxClearAll (u : handle).
+  | MuxClearAll (u : handle)
+  | EnumClone (e : handle)                          (* SignalEnum.Clone *)
+  | EvalClone (v : handle).                         (* SignalEnumValue.Clone *)
 
 Definition step2 (s : state2) (o : op2) : state2 * result :=
   match o with
@@ -337,6 +377,8 @@ Definition step2 (s : state2) (o : op2) : state2 * result :=
   | MuxRemove u k => mux_remove s u k
   | MuxClearGroup u g => mux_clear_group s u g
   | MuxClearAll u => mux_clear_all s u
+  | EnumClone e => enum_clone s e
+  | EvalClone v => eval_clone s v
   end.
 
 Definition run2 (ops : list op2) : state2 := fold_left (λ s o, (step2 s o).1) ops init2.
